@@ -12,21 +12,11 @@ From V Require Import lib.Base lib.Utf8 model.Html model.HtmlUnescape model.UrlP
 
 (* which chain an action after a non-empty static prefix gets in a URL-typed attribute: the
    validator of the class accepted the prefix, the value is unambiguous, and the chain is
-   validate + escape + html (TrustedResourceURL), escape + html when the RAW prefix contains '?'
-   or '#', normalise + html otherwise *)
-Theorem C14_chain_choice_partial : forall c chain sc0,
-  all_same_sc (attr_pairs c) (c_link_rel c) None = Some sc0 ->
-  sc_is_url sc0 = true -> c_attr_value c <> [] ->
-  sanitizers_for_attr_value c = Some chain ->
-  c_attr_amb c = false /\
-  ((sc0 = SC_TRU /\ validate_tru_prefix (c_attr_value c) = true /\
-    chain = [N_validateTRUSubst; N_queryEscapeURL; N_sanitizeHTML]) \/
-   ((sc0 = SC_URL \/ sc0 = SC_TRUOrURL) /\ validate_url_prefix (c_attr_value c) = true /\
-    chain = if has_qf (c_attr_value c) then [N_queryEscapeURL; N_sanitizeHTML] else [N_normalizeURL; N_sanitizeHTML])).
-Proof. exact chain_choice. Qed.
-Print Assumptions C14_chain_choice_partial.
-
-(* the property speaks of the prefix as the browser sees it, i.e. DECODED: false (finding D16) *)
+   validate + escape + html (TrustedResourceURL), escape + html when the prefix AS THE BROWSER SEES IT
+   (character references decoded) contains '?' or '#', normalise + html otherwise.  This is the full
+   statement; it holds since the repair of D16 (fix: decide between query escaping and normalization
+   on the decoded URL prefix) - before, the engine looked at the raw prefix and the statement needed
+   the hypothesis finding_D16 (c_attr_value c) = false. *)
 Definition C14_chain_choice_full_statement : Prop := forall c chain sc0,
   all_same_sc (attr_pairs c) (c_link_rel c) None = Some sc0 ->
   sc_is_url sc0 = true -> c_attr_value c <> [] ->
@@ -38,20 +28,9 @@ Definition C14_chain_choice_full_statement : Prop := forall c chain sc0,
     chain = if has_qf (html_unescape (c_attr_value c)) then [N_queryEscapeURL; N_sanitizeHTML]
             else [N_normalizeURL; N_sanitizeHTML])).
 
-(* ... it holds whenever the raw and the decoded prefix agree on containing '?' or '#' *)
-Theorem C14_chain_choice_decoded_partial : forall c chain sc0,
-  all_same_sc (attr_pairs c) (c_link_rel c) None = Some sc0 ->
-  sc_is_url sc0 = true -> c_attr_value c <> [] ->
-  finding_D16 (c_attr_value c) = false ->
-  sanitizers_for_attr_value c = Some chain ->
-  c_attr_amb c = false /\
-  ((sc0 = SC_TRU /\ validate_tru_prefix (c_attr_value c) = true /\
-    chain = [N_validateTRUSubst; N_queryEscapeURL; N_sanitizeHTML]) \/
-   ((sc0 = SC_URL \/ sc0 = SC_TRUOrURL) /\ validate_url_prefix (c_attr_value c) = true /\
-    chain = if has_qf (html_unescape (c_attr_value c)) then [N_queryEscapeURL; N_sanitizeHTML]
-            else [N_normalizeURL; N_sanitizeHTML])).
-Proof. exact chain_choice_decoded. Qed.
-Print Assumptions C14_chain_choice_decoded_partial.
+Theorem C14_chain_choice : C14_chain_choice_full_statement.
+Proof. exact chain_choice. Qed.
+Print Assumptions C14_chain_choice.
 
 (* query / fragment part: HTML escaping and the browser's decoding leave the escaped text alone; it
    is fully percent-encoded, decodes to the data, and contains none of  & = # / ? : @ ; + SP, backslash, quotes or angle brackets *)
